@@ -130,3 +130,22 @@ proof fn lemma_undo_n_ip(m: Mach, log: Seq<ReverseStep>, c: Bases, n: nat)
         lemma_undo_n_ip(m1, log.drop_last() + extra, c, (n - 1) as nat);
     }
 }
+
+// `over` ( a b -- a b a ) records OverData then PopData; undoing them takes three steps
+// (PopData, OverData - which drops b and records PushData(b) - and that PushData)
+proof fn lemma_over_undo(m: Mach, l0: Seq<ReverseStep>, c: Bases)
+    requires m.ds.len() - c.ds >= 2, c.ds >= 0
+    ensures
+        undo_n(Mach { ds: m.ds.push(m.ds[m.ds.len() - 2]), ..m }, l0.push(ReverseStep::OverData).push(ReverseStep::PopData), c, 3) == Some((m, l0)),
+        undo_n(m, l0.push(ReverseStep::OverData), c, 2) == Some((m, l0)),
+{
+    reveal_with_fuel(undo_n, 5);
+    let d = m.ds;
+    let m3 = Mach { ds: d.push(d[d.len() - 2]), ..m };
+    let l2 = l0.push(ReverseStep::OverData).push(ReverseStep::PopData);
+    assert(m3.ds.drop_last() =~= d);
+    assert(l2.drop_last() + Seq::<ReverseStep>::empty() =~= l0.push(ReverseStep::OverData));
+    assert(d.drop_last().push(d.last()) =~= d);
+    assert(l0.push(ReverseStep::OverData).drop_last() + seq![ReverseStep::PushData(d.last())] =~= l0.push(ReverseStep::PushData(d.last())));
+    assert(l0.push(ReverseStep::PushData(d.last())).drop_last() + Seq::<ReverseStep>::empty() =~= l0);
+}
